@@ -74,7 +74,8 @@ class Q(object):
     def __add__(self, o): return Q(self.n + self._o(o), self.d)
     __radd__ = __add__
     def __rsub__(self, o): return Q(self._o(o) - self.n, self.d)
-    def __bool__(self): return self.n != 0
+    def __bool__(self):
+        return True if self.n != 0 else False      # a real bool (forks on the symbolic payload)
     def __deepcopy__(self, memo): return self
     def __copy__(self): return self
 
